@@ -849,4 +849,7 @@ func TestVerifC07(t *testing.T) {
 
 	// ---- (d) the real UpdatePrincipal on a database whose allocator is observed ----
 	c07Principals(t, rec, rnd)
+
+	// ---- (e) the cluster model: explicit-turn scheduler, adversarial batch sizes, crashes, rollback of the counter ----
+	c07Cluster(t, rec, rnd, ctx, under, stats)
 }
